@@ -12,6 +12,7 @@ import sys
 import time
 import traceback
 
+from . import kernel
 from .contracts import run_contracts
 from .facts import AnalysisIncomplete, Facts
 from .interp import Interp
@@ -65,13 +66,20 @@ def _task(kv):
     s0 = I.steps
     rec = {'root': key, 'variant': variant, 'incomplete': None, 'contracts': [], 'exits': 0}
     try:
-        if variant is not None and variant.startswith('internal'):
+        if variant is not None and variant.startswith('kclass:'):
+            I.root = 'kernel:classes'
+            I.events = []
+            I.steps_root = I.steps
+            rec['kclass'] = kernel.run_classes(I, variant)
+            res = []
+        elif variant is not None and variant.startswith('internal'):
             st, args, res = I.run_internal(key, variant.split(':', 1)[1] if ':' in variant else None)
         else:
             st, args, res = I.run_root(key, variant)
         rec['exits'] = len(res)
-        rec['contracts'] = run_contracts(I, key, args, res, variant)
-        rec['extra'] = I.spec.root_extra(I, key, args, res)
+        if 'kclass' not in rec:
+            rec['contracts'] = run_contracts(I, key, args, res, variant)
+            rec['extra'] = I.spec.root_extra(I, key, args, res)
     except AnalysisIncomplete as e:
         rec['incomplete'] = str(e)
     except RecursionError:
@@ -106,6 +114,8 @@ def analyze(facts_path, out_path, jobs=None, only=''):
     roots.sort(key=_weight)
     roots = [(k, v) for k in roots for v in spec.root_variants(k)]
     roots += [(k, 'internal' + (':' + v if v else '')) for k in spec.internal_roots() if only in k for v in spec.internal_variants(k)]
+    if not only or only in 'kernel:classes':
+        roots += [('kernel:classes', v) for v in kernel.class_tasks(f)]
     jobs = jobs or max(1, min(15, (os.cpu_count() or 2) - 1))
     sys.setrecursionlimit(20000)
     results = []
@@ -113,16 +123,33 @@ def analyze(facts_path, out_path, jobs=None, only=''):
         _init(facts_path)
         for k in roots:
             results.append(_task(k))
-        kernel = _G['kernel_obls']
+        kernel_obls = _G['kernel_obls']
     else:
         ctx = mp.get_context('fork')
         with ctx.Pool(jobs, initializer=_init, initargs=(facts_path,)) as pool:
             for r in pool.imap_unordered(_task, roots, chunksize=1):
                 results.append(r)
-            kernel = pool.apply(_kernel_obls)
+            kernel_obls = pool.apply(_kernel_obls)
+    # calendar kernel by residue classes: one pseudo root carrying the C01 formula contracts
+    kc = [r for r in results if 'kclass' in r]
+    if kc:
+        results = [r for r in results if 'kclass' not in r]
+        inc = [r['incomplete'] for r in kc if r['incomplete']]
+        agg = {'root': 'kernel:classes', 'variant': None, 'incomplete': inc[0] if inc else None, 'contracts': [], 'exits': 0,
+               'time': round(sum(r['time'] for r in kc), 2), 'steps': sum(r['steps'] for r in kc), 'obls': [o for r in kc for o in r['obls']],
+               'unmodelled': {}, 'events': kc[0]['events'], 'axioms': {}, 'extra': {'classes': sum(len(r['kclass']['rows']) for r in kc if r.get('kclass'))}}
+        for r in kc:
+            for k, v in r['unmodelled'].items():
+                agg['unmodelled'][k] = agg['unmodelled'].get(k, 0) + v
+        if not inc:
+            agg['contracts'] = kernel.contract([r['kclass'] for r in kc])
+            # the class runs cover every input of the kernel's precondition: they supersede the obligations of the
+            # path-insensitive out-of-line run inside the two kernel functions
+            kernel_obls = [o for o in kernel_obls if o['fn'] not in (kernel.D2J, kernel.J2D)]
+        results.append(agg)
     # merge obligations
     merged = {}
-    for src in [{'obls': kernel, 'root': 'kernel'}] + results:
+    for src in [{'obls': kernel_obls, 'root': 'kernel'}] + results:
         for o in src['obls']:
             k = (o['kind'], o['fn'], o['bb'], o['desc'])
             m = merged.get(k)
